@@ -359,6 +359,7 @@ func ClientRun(osenv *rsyncos.Env, opts *rsyncopts.Options, conn io.ReadWriter, 
 			DryRun:   opts.DryRun(),
 			Progress: opts.Progress(),
 
+			Recurse:           opts.Recurse(),
 			DeleteMode:        opts.DeleteMode(),
 			PreserveGid:       opts.PreserveGid(),
 			PreserveUid:       opts.PreserveUid(),
